@@ -34,6 +34,15 @@ theorem offered6_append (id : Nat) : ∀ (a b : List In6), offered6 id (a ++ b) 
     simp only [List.cons_append, offered6, offered6_append id a b]
     split <;> simp
 
+theorem mem_offered6 (id : Nat) : ∀ (l : List In6) (i : In6), i ∈ l → i.id = id →
+    norm i.src i.dst i.x ∈ offered6 id l
+  | [], _, h, _ => by cases h
+  | a :: l, i, h, hk => by
+    rcases List.mem_cons.1 h with e | h'
+    · rw [← e]; simp [offered6, hk]
+    · have := mem_offered6 id l i h' hk
+      simp only [offered6]; split <;> simp [this]
+
 def GInv6 (D : Dgram6) (H : List In6) (st : State) : Prop :=
   ∃ p : Frag6 → Bool, (∀ g, p g = true ↔ g ∈ offered6 D.id H) ∧ st.chain D.id = D.frags.filter p
 
